@@ -51,3 +51,20 @@ Proof. vm_compute. reflexivity. Qed.
 (* every documented keyword, synonym and operator spelling is present with its documented meaning *)
 Lemma gen_documented_meaning : documented_meaning gen_cfg = true.
 Proof. vm_compute. reflexivity. Qed.
+
+Require Import MD.Select.Layout MD.Select.LexProofs MD.Select.Sugar.
+
+(* the lexer can work with the regenerated operator table; no keyword and no operator is listed twice *)
+Lemma gen_lexcfg_ok : lexcfg_ok gen_cfg = true.
+Proof. vm_compute. reflexivity. Qed.
+
+Lemma gen_keys_nodup : NoDup (map fst (sel_kws gen_cfg)) /\ NoDup (map fst (bin_sem gen_cfg)).
+Proof. split; apply nodup_strb_sound; vm_compute; reflexivity. Qed.
+
+Lemma demo_tree_writable : writable gen_cfg demo_tree.
+Proof. split; [exact demo_tree_wf|vm_compute; reflexivity]. Qed.
+
+Lemma demo_strings :
+  print_loose gen_cfg demo_tree = " not ( name CA CB or resid 1 to 3 ) and mass < 5" /\
+  print_tight gen_cfg demo_tree = "not (name CA CB or resid 1 to 3)and mass<5".
+Proof. vm_compute. split; reflexivity. Qed.
